@@ -79,7 +79,8 @@ impl Executor for BashScriptExecutor {
         testcases: &[&TestCase],
         context: &ExecutionContext,
     ) -> Result<Vec<Output>> {
-        let testcase = compile_testcase(testcases, context)?;
+        let salt = random_string(SUFFIX_RANDOM_SIZE);
+        let testcase = compile_testcase(testcases, context, &salt)?;
         let runner = SubprocessRunner(self.0.to_owned());
         let output = runner
             .run("script", &testcase, context)
@@ -113,6 +114,7 @@ impl Executor for BashScriptExecutor {
         iterate_divided_output(
             "STDOUT",
             (&output.stdout).into(),
+            &salt,
             |_index: usize, out: &[u8], exit_code: i32| {
                 outputs.push(Output {
                     stderr: vec![].into(),
@@ -147,6 +149,7 @@ impl Executor for BashScriptExecutor {
             iterate_divided_output(
                 "STDERR",
                 (&output.stderr).into(),
+                &salt,
                 |index: usize, out: &[u8], _exit_code: i32| {
                     if index >= outputs.len() {
                         return Err(ExecutionError::aborted(
@@ -171,7 +174,11 @@ impl Executor for BashScriptExecutor {
 /// Reduce a list of [`TestCase`] into a single one that has as it's shell
 /// expression a compiled bash script that executes all expressions and that
 /// uses a shared configuration
-fn compile_testcase(testcases: &[&TestCase], context: &ExecutionContext) -> Result<TestCase> {
+fn compile_testcase(
+    testcases: &[&TestCase],
+    context: &ExecutionContext,
+    salt: &str,
+) -> Result<TestCase> {
     let mut config = TestCaseConfig::empty();
 
     // iterate all test cases and make sure that they have a consistent configuration
@@ -215,7 +222,7 @@ fn compile_testcase(testcases: &[&TestCase], context: &ExecutionContext) -> Resu
     }
 
     // create a bash script that executes all testcases
-    let script = compile_script(testcases, &config)?;
+    let script = compile_script(testcases, &config, salt)?;
 
     // the environment variables are already exported in the compiled script
     config.environment.clear();
@@ -242,11 +249,10 @@ fn remove_dividers_from_output(output: &OutputStream) -> OutputStream {
 }
 
 /// Compiles all shell expressions of a list of [`TestCase`]s into a single bash script
-fn compile_script(testcases: &[&TestCase], config: &TestCaseConfig) -> Result<String> {
+fn compile_script(testcases: &[&TestCase], config: &TestCaseConfig, salt: &str) -> Result<String> {
     use std::borrow::Cow;
 
     let mut expressions = vec![];
-    let salt = random_string(SUFFIX_RANDOM_SIZE);
     for (index, testcase) in testcases.iter().enumerate() {
         if testcase.config.timeout.is_some() {
             return Err(ExecutionError::failed(
@@ -281,7 +287,7 @@ fn compile_script(testcases: &[&TestCase], config: &TestCaseConfig) -> Result<St
         expressions.push(testcase.shell_expression.to_string());
 
         // add footer that divides from next execution and captures exit code
-        let footer = generate_divider(&salt, index);
+        let footer = generate_divider(salt, index);
         expressions.push("".to_string());
         expressions.push(format!(r#"echo "{}""#, &footer));
         if config.output_stream != Some(OutputStreamControl::Combined) {
@@ -292,15 +298,42 @@ fn compile_script(testcases: &[&TestCase], config: &TestCaseConfig) -> Result<St
     Ok(expressions.join("\n"))
 }
 
-fn iterate_divided_output<C>(name: &str, output: &[u8], mut callback: C) -> Result<()>
+fn iterate_divided_output<C>(name: &str, output: &[u8], salt: &str, mut callback: C) -> Result<()>
 where
     C: FnMut(usize, &[u8], i32) -> Result<()>,
 {
     let mut buffer = vec![];
     let mut expected_index = 0;
+    let salted_prefix = format!("{}{}::", DIVIDER_PREFIX, salt).into_bytes();
     for line in output.split_at_newline() {
-        let divider =
-            parse_divider_bytes(line).map_err(|err| ExecutionError::failed(expected_index, err))?;
+        // only a divider that carries the salt of this execution is a divider, anything
+        // else that looks like one is output; the divider is always the end of its line
+        let divider = match line
+            .windows(salted_prefix.len())
+            .rposition(|window| window == &salted_prefix[..])
+        {
+            None => DividerSearch::NotFound,
+            Some(start) => {
+                match parse_divider_bytes(&line[start..])
+                    .map_err(|err| ExecutionError::failed(expected_index, err))?
+                {
+                    DividerSearch::Found {
+                        prefix: _,
+                        output_index,
+                        exit_code,
+                    } => DividerSearch::Found {
+                        prefix: if start > 0 {
+                            Some(line[0..start].to_vec())
+                        } else {
+                            None
+                        },
+                        output_index,
+                        exit_code,
+                    },
+                    DividerSearch::NotFound => DividerSearch::NotFound,
+                }
+            }
+        };
         match divider {
             DividerSearch::NotFound => buffer.push(line.to_vec()),
             DividerSearch::Found {
